@@ -58,9 +58,17 @@ def declare2(S: Spec):
            "implies(c._can_suspend and not c._completed and c._current_memory <= c.assignment.ram,"
            " c._current_op_idx >= 1 and c._current_op_idx < len(c.assignment.ops)"
            " and state(c.assignment.ops[c._current_op_idx]) == OperatorState.ASSIGNED)")
+    # how a container that has ended looks (C09): success = all operators completed, failure = an error, a completed
+    # prefix and a failed rest
+    S.pred("EndedShape", [("c", Ref("Container"))],
+           "CWF(c) and Prefix(c, c._current_op_idx) and"
+           " ((c.error is None and c._current_op_idx == len(c.assignment.ops)) or"
+           "  (c.error is not None and c.error != '' and c._current_op_idx < len(c.assignment.ops)"
+           "   and all(state(c.assignment.ops[j]) == OperatorState.FAILED for j in range(c._current_op_idx, len(c.assignment.ops)))))")
     S.pred("ActiveOK", [("p", Ref("ResourcePool")), ("c", Ref("Container"))],
            "c is not None and c.pool is p and c.assignment is not None and c.assignment.ram > 0 and c.assignment.cpu >= 1"
-           " and (c._completed or LiveShape(c)) and implies(c._completed, c._current_memory == 0)"
+           " and c.assignment.ops is not None and len(c.assignment.ops) >= 1"
+           " and (c._completed or LiveShape(c)) and implies(c._completed, c._current_memory == 0 and EndedShape(c))"
            " and c._tick_iter is not None and c._tick_iter.owner is c and SuspendableOK(c)")
     S.pred("OwnOp", [("p", Ref("ResourcePool")), ("o", Ref("Operator"))],
            "any(o in c.assignment.ops for c in p.active_containers)")
@@ -177,6 +185,22 @@ def declare3(S: Spec):
               " for c in self.active_containers) and "
               "all(c in old(seq(self.active_containers)) or c in old(seq(self.suspending_containers)) or c.assignment in assignments"
               " for c in self.suspending_containers)")
+    # every container that was running at entry is still in a list (its outcome is decided in the last two loops)
+    ALIVE0 = ("all(c in self.active_containers or c in self.suspending_containers or c in self.suspended_containers"
+              " for c in old(seq(self.active_containers)))")
+    STARTED = "all(any(c.assignment is a for c in self.active_containers) or any(r.ops is a.ops for r in {res}) for a in {seq})"
+    # a result is a success exactly when all operators completed; a failure names an error and leaves a completed
+    # prefix followed by failed operators (no completed operator after a failed one, the last one failed)
+    S.pred("ResultShape", [("r", Ref("ExecutionResult"))],
+           "r is not None and r.ops is not None and len(r.ops) >= 1 and"
+           " implies(r.error is None, all(state(o) == OperatorState.COMPLETED for o in r.ops)) and"
+           " implies(r.error is not None, r.error != '' and state(r.ops[len(r.ops) - 1]) == OperatorState.FAILED"
+           " and all(state(o) in (OperatorState.COMPLETED, OperatorState.FAILED) for o in r.ops)"
+           " and all(implies(state(r.ops[j]) == OperatorState.FAILED, state(r.ops[j + 1]) == OperatorState.FAILED) for j in range(0, len(r.ops) - 1)))")
+    RES = "len(results) == len(to_remove)"
+    RES2 = ("all(results[j].ops is to_remove[j].assignment.ops and results[j].error == to_remove[j].error"
+            " and results[j].container_id == to_remove[j].container_id for j in range(0, len(results)))")
+    RES3 = "all(ResultShape(r) for r in results)"
     CTX = ["GI1()", ORIGIN, UNTOUCHED, "Container.next_container_num >= old(Container.next_container_num)", "ListsOK(self)", "LiveDisjoint(self)", "IdsOK(seq(self.active_containers))", "self.ticks_per_second >= 1"]
     ACT0 = "all(ActiveOK(self, c) for c in self.active_containers)"
     ACT = "all(ActiveOK(self, c) and c._current_memory <= c.assignment.ram for c in self.active_containers)"
@@ -197,6 +221,11 @@ def declare3(S: Spec):
                   ("suspending-ok", "all(SuspOK(self, c) for c in self.suspending_containers)"),
                   ("I1", "GI1()"), ("ids-ok", "IdsOK(seq(self.active_containers))"),
                   ("only-own-operators", "C02,C09| " + UNTOUCHED),
+                  ("every-assignment-started", "C09| " + STARTED.format(seq="seq(assignments)", res="result")),
+                  ("result-shape", "C09| all(ResultShape(r) for r in result)"),
+                  ("one-result-per-ended-container", "C09| all(c in self.active_containers or c in self.suspending_containers or c in self.suspended_containers"
+                                                     " or any(r.container_id == c.container_id and r.error == c.error and r.ops is c.assignment.ops for r in result)"
+                                                     " for c in old(seq(self.active_containers)))"),
                   ("id-counter-monotone", "Container.next_container_num >= old(Container.next_container_num)"),
                   ("pool-invariant", "PoolInv(self)"),
                   ("memory-limits", "C04| all(c._current_memory <= c.assignment.ram for c in self.active_containers)"),
@@ -215,16 +244,18 @@ def declare3(S: Spec):
          locals={"results": List(Ref("ExecutionResult")), "to_remove": List(Ref("Container"))},
          loops={
              0: dict(idx="k", header="for s in suspensions",
-                     inv=CTX + ["Conserved(self)", ACT, ACT_LIVE, SUS, USAGE, "BatchOK(self, seq(assignments))",
+                     inv=CTX + ["Conserved(self)", ACT, ACT_LIVE, SUS, USAGE, ALIVE0, "BatchOK(self, seq(assignments))",
                                 "all(c in at_entry(seq(self.active_containers)) for c in self.active_containers)"]),
              1: dict(idx="k", header="for a in assignments",
-                     inv=CTX + [ACT, ACT_LIVE, SUS, USAGE, "k <= len(assignments)",
+                     inv=CTX + [ACT, ACT_LIVE, SUS, USAGE, ALIVE0, "k <= len(assignments)",
                                 "BatchOK(self, drop(assignments, k))",
+                                STARTED.format(seq="take(assignments, k)", res="results"), "len(results) == 0",
                                 "Conserved(self)",
                                 "self.avail_cpu_pool == at_entry(self.avail_cpu_pool) - Sum(take(assignments, k), 'cpuA')",
                                 "self.avail_ram_pool == at_entry(self.avail_ram_pool) - Sum(take(assignments, k), 'ramA')"]),
              2: dict(idx="k", header="for c in self.suspending_containers",
-                     inv=CTX + [ACT, ACT_LIVE, USAGE, "k <= len(self.suspending_containers)",
+                     inv=CTX + [ACT, ACT_LIVE, USAGE, ALIVE0, "k <= len(self.suspending_containers)",
+                                STARTED.format(seq="seq(assignments)", res="results"), "len(results) == 0",
                                 "nodup(to_remove) and all(c in self.suspending_containers and idx(seq(self.suspending_containers), c) < k for c in to_remove)",
                                 "all(implies(j < k, iff(self.suspending_containers[j]._suspend_ticks_left == 0, self.suspending_containers[j] in to_remove))"
                                 " for j in range(0, len(self.suspending_containers)))",
@@ -237,7 +268,7 @@ def declare3(S: Spec):
                                 " - Sum(to_remove, 'ramC') == self.max_ram_pool",
                                 "self.avail_cpu_pool >= 0 and implies(not self.allow_memory_overcommit, self.avail_ram_pool >= 0)"]),
              3: dict(idx="k", header="for c in to_remove",
-                     inv=["ListsOK(self)", "k <= len(to_remove)", "nodup(to_remove)",
+                     inv=["ListsOK(self)", "k <= len(to_remove)", "nodup(to_remove)", ALIVE0,
                           "seq(self.active_containers) == at_entry(seq(self.active_containers))",
                           "all(to_remove[j] in self.suspending_containers for j in range(k, len(to_remove)))",
                           "all(to_remove[j] not in self.suspending_containers for j in range(0, k))",
@@ -248,11 +279,13 @@ def declare3(S: Spec):
                           "self.avail_ram_pool + Sum(self.active_containers, 'ramC') + Sum(self.suspending_containers, 'ramC')"
                           " - Sum(drop(to_remove, k), 'ramC') == self.max_ram_pool"]),
              4: dict(idx="k", header="for c in self.active_containers",
-                     cut=CTX + [ACT, ACT_LIVE, SUS, USAGE, "Conserved(self)", NEG, "len(results) == 0"],
-                     inv=CTX + [ACT0, SUS, USAGE, "Conserved(self)", "k <= len(self.active_containers)",
+                     cut=CTX + [ACT, ACT_LIVE, SUS, USAGE, "Conserved(self)", NEG, "len(results) == 0", ALIVE0,
+                                STARTED.format(seq="seq(assignments)", res="results")],
+                     inv=CTX + [ACT0, SUS, USAGE, "len(results) == 0", ALIVE0, STARTED.format(seq="seq(assignments)", res="results"), "Conserved(self)", "k <= len(self.active_containers)",
                                 "all(not self.active_containers[j]._completed for j in range(k, len(self.active_containers)))"]),
              5: dict(idx="k", header="for c in self.active_containers",
-                     cut=CTX + [ACT, SUS, USAGE, "Conserved(self)", NEG, "len(results) == 0", "len(to_remove) == 0",
+                     cut=CTX + [ACT, SUS, USAGE, "Conserved(self)", NEG, "len(results) == 0", "len(to_remove) == 0", ALIVE0,
+                                STARTED.format(seq="seq(assignments)", res="results"),
                                 "all(c._current_memory <= c.assignment.ram for c in self.active_containers)",
                                 "self.consumed_ram_gb <= self.max_ram_pool or all(c._current_memory <= 0 for c in self.active_containers)"],
                      inv=CTX + [ACT, SUS, USAGE, "k <= len(self.active_containers)",
@@ -267,8 +300,8 @@ def declare3(S: Spec):
                                 "self.avail_ram_pool + Sum(self.active_containers, 'ramC') + Sum(self.suspending_containers, 'ramC')"
                                 " - Sum(to_remove, 'ramC') == self.max_ram_pool",
                                 "self.avail_cpu_pool >= 0 and implies(not self.allow_memory_overcommit, self.avail_ram_pool >= 0)",
-                                "all(c._current_memory == 0 for c in to_remove)",
-                                "len(results) == len(to_remove)"]),
+                                "all(c._current_memory == 0 for c in to_remove)", ALIVE0,
+                                STARTED.format(seq="seq(assignments)", res="results"), RES, RES2, RES3]),
              6: dict(idx="k", header="for c in to_remove",
                      inv=["ListsOK(self)", "k <= len(to_remove)", "nodup(to_remove)",
                           "seq(self.suspending_containers) == at_entry(seq(self.suspending_containers))",
@@ -277,6 +310,7 @@ def declare3(S: Spec):
                           "all(c in at_entry(seq(self.active_containers)) for c in self.active_containers)",
                           "all(implies(c not in to_remove, c in self.active_containers) for c in at_entry(seq(self.active_containers)))",
                           "Sum(self.active_containers, 'Container._current_memory') == at_entry(Sum(self.active_containers, 'Container._current_memory'))",
+                          "seq(results) == at_entry(seq(results))",
                           "self.avail_cpu_pool + Sum(self.active_containers, 'cpuC') + Sum(self.suspending_containers, 'cpuC')"
                           " - Sum(drop(to_remove, k), 'cpuC') == self.max_cpu_pool",
                           "self.avail_ram_pool + Sum(self.active_containers, 'ramC') + Sum(self.suspending_containers, 'ramC')"
